@@ -14,6 +14,7 @@ checked: byte ranges pairwise disjoint and inside the map; Python -> program
 oracle : struct and the declared formats.
 """
 import struct
+from fractions import Fraction
 
 from hypothesis import strategies as st
 
@@ -111,6 +112,35 @@ def case_strategy(draw):
 
 def strategy(tier):
     return case_strategy()
+
+
+BIG_X = [4503599627370497, 4503599627370496, 6000000000000001,
+         9007199254740991, 9007199254740989, 7205759403792793,
+         (1 << 53) + 2, (1 << 56) + 256, (1 << 62) + 4096,
+         (1 << 50) + 1, (1 << 44) + 12345]
+
+
+def enumerate_cases(tier):
+    """fixed-point variables written from Python with values whose raw integer
+    needs 45 to 63 bits (floats have 53)"""
+    for sign in (1, -1):
+        for i in range(0, len(BIG_X), 2):
+            vals = [sign * v for v in BIG_X[i:i + 2]]
+            yield {"percpu": False, "base": [], "override": None,
+                   "derived": [{"name": f"d{j}", "fmt": "x"}
+                               for j in range(len(vals))],
+                   "subclasses": [], "subs": [], "sibling": False,
+                   "values": [{"py": v, "prog": 29, "k": 0} for v in vals]}
+
+
+def x_raw(v):
+    """the integer a fixed-point variable holds after Python assigned the
+    float v / 100000: the float times 100000, rounded to the nearest integer.
+    Below 2**51 that is v itself; from 2**52 on floats are integers and the
+    product is the correctly rounded exact product."""
+    if abs(v) < 1 << 51:
+        return v
+    return round(Fraction(v / 100000) * 100000)
 
 
 def nelem(f):
@@ -293,7 +323,7 @@ def run_case(case):
                 v = values[i]["py"]
                 want = v[values[i]["k"] % nelem(f)] if len(f) > 1 else v
                 if f == "x":
-                    want = want / 100000
+                    want = x_raw(want) / 100000
                 if got != want:
                     return fail(f"Python wrote {v} to {owner}.{name}:{f}, "
                                 f"the program read {got}",
